@@ -406,7 +406,7 @@ func checkMain(args []string) int {
 		}
 		nviol++
 		fmt.Printf("VIOLATION property=%s replay=%s\n", spec.Property, cv.replay)
-		fmt.Printf("    run=%s entry=%s kind=%s what=%q detail=%q paths=%d native=%s inputs=%s\n", cv.run, cv.v.entry, cv.v.kind, cv.v.msg, cv.v.detail, cv.count, cv.native, fmtInputs(cv.v.hvals))
+		fmt.Printf("    run=%s entry=%s kind=%s what=%q detail=%q witnesses=%v paths=%d native=%s inputs=%s\n", cv.run, cv.v.entry, cv.v.kind, cv.v.msg, cv.v.detail, cv.v.reached, cv.count, cv.native, fmtInputs(cv.v.hvals))
 	}
 	for i := range known {
 		if usedKnown[i] {
